@@ -160,7 +160,17 @@ def run(ctx, res):
     while blk.get("k") == "blockexpr":
         blk = blk["block"]
     tail = T.peel(blk["tail"]) if blk.get("tail") is not None else {}
-    if tail.get("k") == "mcall" and tail["name"] == "fold" and T.render(tail["recv"]) == "tokens.into_iter()" and T.render(tail["args"][0]) == "std::vec::Vec::new()":
+    seed_txt = ""
+    if tail.get("k") == "mcall" and tail["name"] == "fold":
+        sd = T.peel(tail["args"][0])
+        if T.local_of(sd) is not None:
+            # the seed may be a local bound to the empty list (e.g. with a capacity hint)
+            for s_ in T.nodes(b["tree"], "let"):
+                if s_["pat"].get("p") == "bind" and s_["pat"]["id"] == T.local_of(sd) and s_.get("init") is not None \
+                        and not any(x.get("k") == "mcall" and T.local_of(T.peel_ref(x["recv"])) == T.local_of(sd) for x in T.nodes(b["tree"])):
+                    sd = T.peel(s_["init"])
+        seed_txt = T.render(sd)
+    if tail.get("k") == "mcall" and tail["name"] == "fold" and T.render(tail["recv"]) == "tokens.into_iter()" and seed_txt == "std::vec::Vec::new()":
         res.holds("C07.R4", fn, "returns-merged", "tokens.into_iter().fold(vec![], merge adjacent Text)")
     else:
         res.add(Finding("C07.R4", fn, "returns-merged", "tokenize does not return the adjacent-Text merge of the scanned tokens", loc=T.loc(b["tree"])))
